@@ -185,9 +185,24 @@ def check_C20(A, R, tier):
                 ready2 |= set(w["to"])
             if any(elem_is_key(v["elem"], w["key"]) and connected(A, w, v) for v in ins_clean):
                 cleanup2 |= set(w["to"])
+    runq = C["RunningQ"]
+    runq_what = "states reported by query_jobs_running"
+    if runq is None:
+        # the running report is a maintained set: the independent definition is 'states whose entry inserts the job into that set'
+        rset = ("self", C["RunningSetField"])
+        run2 = set()
+        allruns = list(H.values())
+        for nm_ in EVENTS:
+            allruns += list(A.event_runs(nm_).values())
+        for run in allruns:
+            ins_run = [v for v in run.by_kind("set_op") if v["op"] == "insert" and v["target"] == rset]
+            for w in run.by_kind("write_state"):
+                if any(elem_is_key(v["elem"], w["key"]) and connected(A, w, v) for v in ins_run):
+                    run2 |= set(w["to"])
+        runq, runq_what = frozenset(run2), "states whose entry inserts the job into the set query_jobs_running reports"
     indep = {"event_now_running": ("Ready", frozenset(ready2), "states whose entry inserts the job into the ready set"),
-             "event_job_finished_success": ("RunningAccepted", C["RunningQ"], "states reported by query_jobs_running"),
-             "event_job_finished_failure": ("RunningF", C["RunningQ"], "states reported by query_jobs_running"),
+             "event_job_finished_success": ("RunningAccepted", runq, runq_what),
+             "event_job_finished_failure": ("RunningF", runq, runq_what),
              "event_job_cleanup_done": ("CleanupOffered", frozenset(cleanup2), "states whose entry inserts the job into the cleanup set")}
     reach = A.reach()
     R.info["reachable_states"] = len(reach)
@@ -366,8 +381,12 @@ def check_C17(A, R, tier):
     R.ob("R17.5", "Failed subset of Finished", C["Failed"] <= C["Finished"], detail=str(A.snames(C["Failed"] - C["Finished"])))
     R.ob("R17.5", "UpstreamFailed subset of Finished", C["UpstreamFailed"] <= C["Finished"])
     R.ob("R17.5", "Failed and UpstreamFailed are disjoint", not (C["Failed"] & C["UpstreamFailed"]))
-    R.ob("R17.5", "query_jobs_running reports exactly the states that may be finished", C["RunningQ"] == C["RunningAccepted"] == C["RunningF"],
-         detail="query: %s / success: %s / failure: %s" % (A.snames(C["RunningQ"]), A.snames(C["RunningAccepted"]), A.snames(C["RunningF"])))
+    if C["RunningQ"] is not None:
+        R.ob("R17.5", "query_jobs_running reports exactly the states that may be finished", C["RunningQ"] == C["RunningAccepted"] == C["RunningF"],
+             detail="query: %s / success: %s / failure: %s" % (A.snames(C["RunningQ"]), A.snames(C["RunningAccepted"]), A.snames(C["RunningF"])))
+    else:
+        R.ob("R17.5", "the states from which success and failure reports are accepted coincide", C["RunningAccepted"] == C["RunningF"])
+        pairing(A, R, "R17.4r", C["Running"], ("self", C["RunningSetField"]), "running")
     R.ob("R17.5", "CleanupOffered subset of Finished", C["CleanupOffered"] <= C["Finished"])
     failed2 = set()
     for f, tos in sig_writes(A, fk).items():
